@@ -33,7 +33,7 @@ LEVEL_TEXT = ("Each of ~30 single faults (forcing not covering the window, frame
               "illegal subgrids) is injected into each of 8 base scenarios (quick) plus 400 random bases (thorough); the real start-up must refuse every one before the first step and write no record.")
 LEVEL_NOTE = "Single faults only. 'Refused' = SystemExit with a non-zero code or any other exception raised before the first Model.update; the fault-free base must complete, otherwise the case is void and not counted."
 RULE = ("case = (base, fault). Non-trivial: the base ran and the fault is really present in the files/configuration written (e.g. the unsorted frame times are read back); distinct by (base, fault).")
-MANDATORY = ["fault_in_a_version_1_configuration", "fault_in_a_warm_started_setup", "forcing_files_with_different_time_units", "refused_before_first_step", "base_forward", "base_reversed", "base_multifile", "base_continuous", "subprocess_exit_status_checked", "fault_presence_verified", "fault_written_over_a_valid_setup", "base_with_legal_negative_subgrid", "subgrid_fault_with_negative_limits"]
+MANDATORY = ["forcing_ends_inside_the_last_partial_step_reversed", "forcing_ends_inside_the_last_partial_step_forward", "fault_in_a_version_1_configuration", "fault_in_a_warm_started_setup", "forcing_files_with_different_time_units", "refused_before_first_step", "base_forward", "base_reversed", "base_multifile", "base_continuous", "subprocess_exit_status_checked", "fault_presence_verified", "fault_written_over_a_valid_setup", "base_with_legal_negative_subgrid", "subgrid_fault_with_negative_limits"]
 ASSUMPTIONS = ["single faults (no combinations)"]
 TIMEOUT = {"quick": 1200, "thorough": 3500}
 
@@ -44,7 +44,8 @@ FAULTS = ["forcing_ends_early", "forcing_starts_late", "forcing_starts_late_subs
           "subgrid_i0_lt_1", "subgrid_i1_gt_max", "subgrid_i0_ge_i1", "subgrid_j0_lt_1", "subgrid_j1_gt_max", "subgrid_j0_ge_j1", "subgrid_i0_eq_i1",
           "subgrid_i0_far_negative", "subgrid_j0_far_negative", "subgrid_negative_i1_le_i0", "subgrid_negative_j1_le_j0", "subgrid_i1_minus_imax",
           "v1_missing_grid_file", "v1_missing_forcing_file", "warm_start_stop_not_after_restart_time",
-          "last_frame_duplicated", "last_frame_steps_back", "continuous_release_without_a_tick_in_the_window"]
+          "last_frame_duplicated", "last_frame_steps_back", "continuous_release_without_a_tick_in_the_window",
+          "forcing_ends_inside_the_last_partial_step"]
 
 
 def bases(tier: str, seed: int) -> list[dict[str, Any]]:
@@ -97,6 +98,13 @@ def base_files(b: dict[str, Any], wd: Path, fault: str | None):
     stop = str(tadd(start, sgn * ns * dt))
     fr = list(b["frames"])  # frame positions on the simulation axis (steps)
     files = list(b["files"])
+    if fault in ("forcing_ends_inside_the_last_partial_step", "_partial_stop_valid"):
+        # the duration is ns and a half steps; the valid twin keeps its frames (they reach beyond the stop time), the faulty one ends a quarter of a
+        # step after the last whole step, i.e. before the stop time
+        stop = str(tadd(start, sgn * (ns * dt + dt // 2)))
+        if fault == "forcing_ends_inside_the_last_partial_step":
+            fr = [f for f in fr if f < ns] + [ns + 0.25]
+            files = [len(fr)]
     if fault == "forcing_ends_early":  # no frame at or after the end of the window (in simulation order)
         fr = [f for f in fr if f < ns - 1]
         files = [len(fr)]
@@ -257,7 +265,7 @@ def one_run(b: dict[str, Any], fault: str | None, wd: Path, sub: bool):
     # --- verify the fault is really in what ladim will read
     present = v1_valid_runs
     if fault in ("last_frame_duplicated", "last_frame_steps_back", "frames_unsorted_in_file", "frames_unsorted_across_files", "frame_duplicated_across_files", "forcing_ends_early", "forcing_starts_late",
-                 "forcing_starts_late_substep", "forcing_ends_early_substep"):
+                 "forcing_starts_late_substep", "forcing_ends_early_substep", "forcing_ends_inside_the_last_partial_step"):
         ts = []
         for fn in world["files"]:
             with Dataset(fn) as nc:
@@ -273,7 +281,7 @@ def one_run(b: dict[str, Any], fault: str | None, wd: Path, sub: bool):
             present = any(b2 < a for a, b2 in zip(ts, ts[1:]))
         elif fault == "frame_duplicated_across_files":
             present = any(b2 == a for a, b2 in zip(ts, ts[1:]))
-        elif fault.endswith("_substep"):
+        elif fault.endswith("_substep") or fault == "forcing_ends_inside_the_last_partial_step":
             # the window [min, max] of the run in seconds since 1970; the forcing must miss one end by less than one step
             import numpy as _np  # noqa: PLC0415
 
@@ -311,7 +319,8 @@ def run_case(case: dict[str, Any], wd: Path) -> dict[str, Any]:
     # the faulty set-up is written over the valid one: same directory, same file names, same process (what a user who edits
     # or replaces files between two runs does)
     shared = (b["id"] + FAULTS.index(fault)) % 2 == 0
-    res0, nupd0, nwrite0, nrec0, _p, _s = one_run(copy.deepcopy(b), None, wd / ("run" if shared else "base"), False)
+    basefault = "_partial_stop_valid" if fault == "forcing_ends_inside_the_last_partial_step" else None  # the valid twin has the same (off-grid) stop time
+    res0, nupd0, nwrite0, nrec0, _p, _s = one_run(copy.deepcopy(b), basefault, wd / ("run" if shared else "base"), False)
     if shared:
         import shutil  # noqa: PLC0415
 
@@ -339,6 +348,8 @@ def run_case(case: dict[str, Any], wd: Path) -> dict[str, Any]:
     sit["fault_written_over_a_valid_setup"] = int(shared)
     sit["fault_in_a_version_1_configuration"] = int(fault.startswith("v1_") and present)
     sit["fault_in_a_warm_started_setup"] = int(fault.startswith("warm_"))
+    if fault == "forcing_ends_inside_the_last_partial_step":
+        sit["forcing_ends_inside_the_last_partial_step_" + ("reversed" if b["reversed"] else "forward")] = int(bool(present))
     cnt["fault_runs"] = 1
     if not present:
         return C.result([], sit, cnt, nontrivial=False, key=key, sample=desc, void=True, note="fault not present in the generated files")
